@@ -224,6 +224,8 @@ def _pred_case(vals, acc):
 
 def run(ctx):
     rep = ctx.new_report()
+    from vlib.ref import noise as _noise
+    E.set_noise(_noise.versionutils_noise())
     alpha = ALPHA + [500 + ctx.seed % 400]
     from vlib import lits
     alpha += [w for v in lits.new('oslo_utils/versionutils.py')['ints'] for w in (v - 1, v)
